@@ -128,3 +128,154 @@ Proof. intros. unfold F64.gtb. apply ltb_key; assumption. Qed.
 
 Lemma geb_key : forall x y, nonan x -> nonan y -> F64.geb x y = (key y <=? key x).
 Proof. intros. unfold F64.geb. apply leb_key; assumption. Qed.
+
+(* ------------------------------------------------------------------ *)
+(* Interface for importers (names are stable).
+
+   [nonan x]                 x is not a NaN
+   [key x : Z]               the order embedding (both zeros -> 0)
+   [cmp_key]                 F64.cmp x y = Some (key x ?= key y)
+   [ltb_key leb_key eqb_key gtb_key geb_key]      boolean comparisons as Z comparisons
+   [key_lt_iff key_le_iff key_eq_iff]             the same as propositions
+   [ltb_irrefl ltb_asym ltb_trans ltb_total leb_trans leb_total leb_antisym
+    eqb_refl eqb_sym eqb_trans ltb_leb_trans leb_ltb_trans ltb_negb_geb]
+                              the order laws of non-NaN doubles
+   [ltb_irrefl_any ltb_asym_any ltb_trans_any eqb_sym_any]
+                              what holds for ALL doubles, NaN included
+   [cmp_nan_l cmp_nan_r]     comparisons with a NaN are all false
+   Typical use:  rewrite (ltb_key x y Hx Hy) in *; lia.                 *)
+
+Lemma key_lt_iff : forall x y, nonan x -> nonan y -> (F64.ltb x y = true <-> key x < key y).
+Proof. intros x y Hx Hy. rewrite (ltb_key x y Hx Hy). apply Z.ltb_lt. Qed.
+
+Lemma key_le_iff : forall x y, nonan x -> nonan y -> (F64.leb x y = true <-> key x <= key y).
+Proof. intros x y Hx Hy. rewrite (leb_key x y Hx Hy). apply Z.leb_le. Qed.
+
+Lemma key_eq_iff : forall x y, nonan x -> nonan y -> (F64.eqb x y = true <-> key x = key y).
+Proof. intros x y Hx Hy. rewrite (eqb_key x y Hx Hy). apply Z.eqb_eq. Qed.
+
+Lemma ltb_irrefl : forall x, nonan x -> F64.ltb x x = false.
+Proof. intros x Hx. rewrite (ltb_key x x Hx Hx). apply Z.ltb_irrefl. Qed.
+
+Lemma ltb_asym : forall x y, nonan x -> nonan y -> F64.ltb x y = true -> F64.ltb y x = false.
+Proof.
+  intros x y Hx Hy. rewrite (ltb_key x y Hx Hy), (ltb_key y x Hy Hx).
+  intro H. apply Z.ltb_lt in H. apply Z.ltb_ge. lia.
+Qed.
+
+Lemma ltb_trans : forall x y z, nonan x -> nonan y -> nonan z ->
+  F64.ltb x y = true -> F64.ltb y z = true -> F64.ltb x z = true.
+Proof.
+  intros x y z Hx Hy Hz. rewrite (ltb_key x y Hx Hy), (ltb_key y z Hy Hz), (ltb_key x z Hx Hz).
+  intros H1 H2. apply Z.ltb_lt in H1. apply Z.ltb_lt in H2. apply Z.ltb_lt. lia.
+Qed.
+
+(* totality: neither smaller means equal *)
+Lemma ltb_total : forall x y, nonan x -> nonan y ->
+  F64.ltb x y = false -> F64.ltb y x = false -> F64.eqb x y = true.
+Proof.
+  intros x y Hx Hy. rewrite (ltb_key x y Hx Hy), (ltb_key y x Hy Hx), (eqb_key x y Hx Hy).
+  intros H1 H2. apply Z.ltb_ge in H1. apply Z.ltb_ge in H2. apply Z.eqb_eq. lia.
+Qed.
+
+Lemma leb_trans : forall x y z, nonan x -> nonan y -> nonan z ->
+  F64.leb x y = true -> F64.leb y z = true -> F64.leb x z = true.
+Proof.
+  intros x y z Hx Hy Hz. rewrite (leb_key x y Hx Hy), (leb_key y z Hy Hz), (leb_key x z Hx Hz).
+  intros H1 H2. apply Z.leb_le in H1. apply Z.leb_le in H2. apply Z.leb_le. lia.
+Qed.
+
+Lemma leb_total : forall x y, nonan x -> nonan y -> F64.leb x y = true \/ F64.leb y x = true.
+Proof.
+  intros x y Hx Hy. rewrite (leb_key x y Hx Hy), (leb_key y x Hy Hx).
+  destruct (Z.le_ge_cases (key x) (key y)); [left|right]; apply Z.leb_le; assumption.
+Qed.
+
+Lemma leb_antisym : forall x y, nonan x -> nonan y ->
+  F64.leb x y = true -> F64.leb y x = true -> F64.eqb x y = true.
+Proof.
+  intros x y Hx Hy. rewrite (leb_key x y Hx Hy), (leb_key y x Hy Hx), (eqb_key x y Hx Hy).
+  intros H1 H2. apply Z.leb_le in H1. apply Z.leb_le in H2. apply Z.eqb_eq. lia.
+Qed.
+
+Lemma ltb_leb_trans : forall x y z, nonan x -> nonan y -> nonan z ->
+  F64.ltb x y = true -> F64.leb y z = true -> F64.ltb x z = true.
+Proof.
+  intros x y z Hx Hy Hz. rewrite (ltb_key x y Hx Hy), (leb_key y z Hy Hz), (ltb_key x z Hx Hz).
+  intros H1 H2. apply Z.ltb_lt in H1. apply Z.leb_le in H2. apply Z.ltb_lt. lia.
+Qed.
+
+Lemma leb_ltb_trans : forall x y z, nonan x -> nonan y -> nonan z ->
+  F64.leb x y = true -> F64.ltb y z = true -> F64.ltb x z = true.
+Proof.
+  intros x y z Hx Hy Hz. rewrite (leb_key x y Hx Hy), (ltb_key y z Hy Hz), (ltb_key x z Hx Hz).
+  intros H1 H2. apply Z.leb_le in H1. apply Z.ltb_lt in H2. apply Z.ltb_lt. lia.
+Qed.
+
+Lemma ltb_negb_geb : forall x y, nonan x -> nonan y -> F64.ltb x y = negb (F64.geb x y).
+Proof.
+  intros x y Hx Hy. rewrite (ltb_key x y Hx Hy), (geb_key x y Hx Hy). apply Z.ltb_antisym.
+Qed.
+
+Lemma eqb_refl : forall x, nonan x -> F64.eqb x x = true.
+Proof. intros x Hx. rewrite (eqb_key x x Hx Hx). apply Z.eqb_refl. Qed.
+
+Lemma eqb_sym : forall x y, nonan x -> nonan y -> F64.eqb x y = F64.eqb y x.
+Proof. intros x y Hx Hy. rewrite (eqb_key x y Hx Hy), (eqb_key y x Hy Hx). apply Z.eqb_sym. Qed.
+
+Lemma eqb_trans : forall x y z, nonan x -> nonan y -> nonan z ->
+  F64.eqb x y = true -> F64.eqb y z = true -> F64.eqb x z = true.
+Proof.
+  intros x y z Hx Hy Hz. rewrite (eqb_key x y Hx Hy), (eqb_key y z Hy Hz), (eqb_key x z Hx Hz).
+  intros H1 H2. apply Z.eqb_eq in H1. apply Z.eqb_eq in H2. apply Z.eqb_eq. lia.
+Qed.
+
+(* ---- with NaN: every comparison that involves a NaN is false *)
+Lemma nonan_dec : forall x : f64, {nonan x} + {x = B754_nan}.
+Proof. intros [s|s| |s m e B]; try (left; reflexivity). right; reflexivity. Qed.
+
+Lemma cmp_nan_l : forall y, F64.cmp B754_nan y = None.
+Proof. reflexivity. Qed.
+
+Lemma cmp_nan_r : forall x, F64.cmp x B754_nan = None.
+Proof. intros [s|s| |s m e B]; reflexivity. Qed.
+
+Lemma ltb_nan_l : forall y, F64.ltb B754_nan y = false.
+Proof. reflexivity. Qed.
+
+Lemma ltb_nan_r : forall x, F64.ltb x B754_nan = false.
+Proof. intros x. unfold F64.ltb. rewrite cmp_nan_r. reflexivity. Qed.
+
+Lemma eqb_nan_l : forall y, F64.eqb B754_nan y = false.
+Proof. reflexivity. Qed.
+
+Lemma eqb_nan_r : forall x, F64.eqb x B754_nan = false.
+Proof. intros x. unfold F64.eqb. rewrite cmp_nan_r. reflexivity. Qed.
+
+Lemma ltb_true_nonan : forall x y, F64.ltb x y = true -> nonan x /\ nonan y.
+Proof.
+  intros x y H. destruct (nonan_dec x) as [Hx|Hx]; [|subst; discriminate H].
+  destruct (nonan_dec y) as [Hy|Hy]; [split; assumption|]. subst. rewrite ltb_nan_r in H. discriminate.
+Qed.
+
+(* the strict order laws hold for ALL doubles *)
+Lemma ltb_irrefl_any : forall x, F64.ltb x x = false.
+Proof. intros x. destruct (nonan_dec x) as [Hx|Hx]; [apply ltb_irrefl; exact Hx|subst; reflexivity]. Qed.
+
+Lemma ltb_asym_any : forall x y, F64.ltb x y = true -> F64.ltb y x = false.
+Proof. intros x y H. destruct (ltb_true_nonan x y H) as [Hx Hy]. apply ltb_asym; assumption. Qed.
+
+Lemma ltb_trans_any : forall x y z, F64.ltb x y = true -> F64.ltb y z = true -> F64.ltb x z = true.
+Proof.
+  intros x y z H1 H2. destruct (ltb_true_nonan x y H1) as [Hx Hy]. destruct (ltb_true_nonan y z H2) as [_ Hz].
+  exact (ltb_trans x y z Hx Hy Hz H1 H2).
+Qed.
+
+Lemma eqb_sym_any : forall x y, F64.eqb x y = F64.eqb y x.
+Proof.
+  intros x y. destruct (nonan_dec x) as [Hx|Hx]; destruct (nonan_dec y) as [Hy|Hy]; subst.
+  - apply eqb_sym; assumption.
+  - rewrite eqb_nan_r. reflexivity.
+  - rewrite eqb_nan_r. reflexivity.
+  - reflexivity.
+Qed.
